@@ -276,7 +276,19 @@ func genC04(r *rand.Rand, tier string, in *input) {
 			if len(p.prev) > 0 && r.IntN(2) == 0 { // the deposed authority tries to append right away
 				p.add(p.commitOp(node, p.prev[len(p.prev)-1], p.newCmd()))
 			}
-		case x < 73: // install the same authority again (idempotent / changed shape)
+		case x < 69: // cross-node deposition: a newer authority is installed on ANOTHER node over the shared
+			// stores, then the deposed leader (still ready in its own owner) proposes a new command, then the new leader does
+			old, oldAuth := p.leader, p.cur
+			a := p.bump(p.max)
+			node := p.otherNode(old)
+			p.add(p.installOp(node, a))
+			p.noteInstall(node, a)
+			p.add(p.commitOp(old, oldAuth, p.newCmd()))
+			if r.IntN(2) == 0 {
+				p.add(p.commitOp(node, a, p.newCmd()))
+				p.add(p.commitOp(old, oldAuth, p.newCmd()))
+			}
+		case x < 75: // install the same authority again (idempotent / changed shape)
 			op := p.installOp(p.leader, p.cur)
 			switch r.IntN(5) {
 			case 0:
@@ -291,7 +303,7 @@ func genC04(r *rand.Rand, tier string, in *input) {
 				op.WF = p.fenced
 			}
 			p.add(op)
-		case x < 82: // install an older authority
+		case x < 83: // install an older authority
 			node := p.leader
 			if r.IntN(3) == 0 {
 				node = p.node()
